@@ -10,10 +10,10 @@ fn p(profile: &'static str, q: u64, t: u64) -> Part {
 pub fn spec(prop: &str, quick: bool) -> Option<CheckSpec> {
     let lifecycle_rule = "plans drawn by a seeded PRNG (hash x per-level (w,h) x levels 1..8 x start counter x fault mix x API mix x aux); a run is non-trivial if at least one fault kind fired (callback reject, crash before/after durable, crash after return, restart) and an oracle was evaluated afterwards; distinct = distinct hash of (key shapes, op-kind sequence incl. API/callback kinds, set of fault kinds that fired)";
     Some(match prop {
-        "C01" => CheckSpec { property: "C01", level: "exploration", parts: vec![p("lifecycle", 1500, 6000), p("lifecycle-full", 300, 1500), p("wire", 100, 600), p("radix-e2e", 6, 30), p("corners", gen::CORNERS, gen::CORNERS)], exhaustive_note: None, rule: lifecycle_rule },
+        "C01" => CheckSpec { property: "C01", level: "exploration", parts: vec![p("lifecycle", 1500, 6000), p("lifecycle-full", 300, 1500), p("wire", 100, 600), p("radix-e2e", 6, 30), p("corners", gen::CORNERS, gen::CORNERS), p("tall", crate::gen2::tall_space(true), crate::gen2::tall_space(false))], exhaustive_note: None, rule: lifecycle_rule },
         "C03" => CheckSpec { property: "C03", level: "exploration", parts: vec![p("lifecycle", 1500, 6000), p("lifecycle-full", 500, 2000), p("corners", gen::CORNERS, gen::CORNERS)], exhaustive_note: None, rule: lifecycle_rule },
         "C05" => CheckSpec { property: "C05", level: "exploration", parts: vec![p("lifecycle-full", 600, 2500), p("lifecycle", 600, 3000), p("radix-arith", 20, 200), p("corners", gen::CORNERS, gen::CORNERS)], exhaustive_note: None, rule: lifecycle_rule },
-        "C07" => CheckSpec { property: "C07", level: "exploration", parts: vec![p("lifecycle", 1500, 6000), p("lifecycle-full", 300, 1500), p("handover", 40, 400), p("radix-e2e", 6, 30), p("corners", gen::CORNERS, gen::CORNERS)], exhaustive_note: None, rule: lifecycle_rule },
+        "C07" => CheckSpec { property: "C07", level: "exploration", parts: vec![p("lifecycle", 1500, 6000), p("lifecycle-full", 300, 1500), p("handover", 40, 400), p("radix-e2e", 6, 30), p("corners", gen::CORNERS, gen::CORNERS), p("tall", crate::gen2::tall_space(true), crate::gen2::tall_space(false))], exhaustive_note: None, rule: lifecycle_rule },
         "C04" => CheckSpec {
             property: "C04",
             level: "fault_enumeration",
@@ -29,12 +29,12 @@ pub fn spec(prop: &str, quick: bool) -> Option<CheckSpec> {
             exhaustive_note: Some("for each base triple (6 hashes x w x L in {1,2,3,8} x height pattern): every prefix length of the signature and of the public key, extensions by 1..64 bytes, the u32 boundary set on every header/type/leaf field of every level, every value of each byte of those fields for L <= 3, every value of each byte of the public-key header fields, PRNG strings of every length 0..200"),
             rule: "enumerated short/extended deliveries and field values per base triple (run index = base triple), plus seeded structure-aware and raw mutations; every case through hbs_lms::verify, VerifyingKey+Signature::from_bytes, VerifyingKey+VerifierSignature::from_ref; non-trivial = the fault changed bytes and the outcome was classified; distinct = (shape, fault-kind sequence) hash",
         },
-        "C08" => CheckSpec { property: "C08", level: "exploration", parts: vec![p("keygen", 6000, 40000)], exhaustive_note: None, rule: "seeds (zero, all-ones, single-bit, PRNG) x parameter lists (1..8 levels, all w, heights up to 10 on top, up to 25 below) x 8 hash instantiations x aux {none, assorted sizes}; every fourth run is SHA-256/32 with heights >= 5 and is compared with the files the hash-sigs binary writes for the same seed; non-trivial = a build-limit or aux 'fault' fired or the binary was consulted (counted via fault_fired/probes); distinct = (shape, op kinds) hash" },
+        "C08" => CheckSpec { property: "C08", level: "exploration", parts: vec![p("keygen", 6000, 40000), p("tall", crate::gen2::tall_space(true), crate::gen2::tall_space(false))], exhaustive_note: None, rule: "seeds (zero, all-ones, single-bit, PRNG) x parameter lists (1..8 levels, all w, heights up to 10 on top, up to 25 below) x 8 hash instantiations x aux {none, assorted sizes}; every fourth run is SHA-256/32 with heights >= 5 and is compared with the files the hash-sigs binary writes for the same seed; non-trivial = a build-limit or aux 'fault' fired or the binary was consulted (counted via fault_fired/probes); distinct = (shape, op kinds) hash" },
         "C09" => CheckSpec { property: "C09", level: "exploration", parts: vec![p("purity", 600, 6000), p("aux", 400, 3000), p("purity-proc", 48, 256)], exhaustive_note: None, rule: "3-6 keys per run with interleaved keygen/sign/load/lifetime ops; observed calls re-executed immediately, at the end of the run, through the other API, with aux, and (every 8th run) in a fresh child process; byte equality; plus purity-proc: long histories (about 1.5k / 7k library calls) each executed in its own fresh child process with every observed call repeated later in that process, so that any dependence on process-wide state replays exactly; plus the aux profile, in which every aux-assisted call is compared with the same call without aux (outputs must not depend on the cache file's content); non-trivial = at least one re-execution context or aux fault fired; distinct = (shapes, op kinds) hash" },
         "C10" => CheckSpec {
             property: "C10",
             level: "fault_enumeration",
-            parts: vec![p("aux-enum", crate::gen2::aux_enum_space(quick), crate::gen2::aux_enum_space(false)), p("aux", 2500, 15000)],
+            parts: vec![p("aux-enum", crate::gen2::aux_enum_space(quick), crate::gen2::aux_enum_space(false)), p("aux", 2500, 15000), p("tall", crate::gen2::tall_space(true), crate::gen2::tall_space(false))],
             exhaustive_note: Some("on a buffer freshly filled by keygen: every single-bit flip, every truncation length 0..len, padding by 1..64 bytes, every value of each level-word byte — each followed by sign (and every fourth by keygen) with the faulted buffer, compared with the same call without aux"),
             rule: "enumerated storage faults on the aux cache file (chunks by run index) plus seeded sequences of keygen/sign/aux-fault ops over keys with equal shape and different seeds; non-trivial = the fault changed the buffer and the transparency/layout/meter oracles ran; distinct = (shape, op kinds, fault set) hash",
         },
@@ -61,12 +61,13 @@ pub fn spec(prop: &str, quick: bool) -> Option<CheckSpec> {
 /// event-log hashes compared.
 pub fn determinism(seed: u64, n: u64) -> i32 {
     let ctx = GenCtx { verif_seed: seed, quick: true };
-    let profiles = ["corners", "lifecycle", "lifecycle-full", "callback", "wire", "aux", "keygen", "purity", "handover", "radix-arith", "storage", "aux-enum", "wire-total", "radix-e2e"];
+    let profiles = ["corners", "lifecycle", "lifecycle-full", "callback", "wire", "aux", "keygen", "purity", "handover", "radix-arith", "storage", "aux-enum", "wire-total", "radix-e2e", "tall"];
     let mut bad = 0;
     let mut total = 0;
     for prof in profiles {
         let cap = match prof {
             "wire-total" | "storage" | "aux-enum" | "radix-e2e" => n.min(3),
+            "tall" => n.min(1),
             "radix-arith" => n.min(4),
             _ => n,
         };
